@@ -5,6 +5,7 @@
 From Coq Require Import List Bool ZArith Permutation.
 Import ListNotations.
 From V Require Import PyBase Values Shipped_gen PandasContains_gen ContainsTheory BagTheory.
+From V Require Import PyValues PythonContains_gen PythonBag.
 
 (* For the eighteen shipped types whose predicate does not look at a prefix of the rows, `seq in T`
    is the same for every reordering of the rows (any permutation, any length, any dtype, any values) *)
@@ -32,3 +33,21 @@ Example C11_String_prefix_refuted :
   pandas_contains tString (mkS objd [v KStr; v KStr; v KStr; v KStr; v KStr; v KBytes]) = Ok true /\
   pandas_contains tString (mkS objd [v KBytes; v KStr; v KStr; v KStr; v KStr; v KStr]) = Ok false.
 Proof. split; vm_compute; reflexivity. Qed.
+
+(* Python-list backend (backends/python/types/*.py REGENERATED from source over lib/PyValues.v): for ALL 24
+   shipped types `seq in T` is a function of the SET of elements of the list - no prefix is inspected -
+   hence the same for every reordering of the rows and every k-fold repetition, any length, any values *)
+Theorem C11_python_list_membership_is_a_function_of_the_set_of_values :
+  forall t l l', (forall x, In x l <-> In x l') -> python_contains t l = python_contains t l'.
+Proof. exact python_contains_same_elements. Qed.
+Print Assumptions C11_python_list_membership_is_a_function_of_the_set_of_values.
+
+Theorem C11_python_list_membership_invariant_under_permutation :
+  forall t l l', Permutation l l' -> python_contains t l = python_contains t l'.
+Proof. exact python_contains_permutation. Qed.
+Print Assumptions C11_python_list_membership_invariant_under_permutation.
+
+Theorem C11_python_list_membership_invariant_under_repetition :
+  forall t k l, python_contains t (rep (S k) l) = python_contains t l.
+Proof. exact python_contains_repetition. Qed.
+Print Assumptions C11_python_list_membership_invariant_under_repetition.
